@@ -421,7 +421,9 @@ impl Sender {
                 // coincidence: same length as the previous message on this chunk stream
                 if let Some(pl) = self.last_len[cls] {
                     if ctx.ch.chance("op.arg.samelen", 1, 4) {
-                        len = pl;
+                        // within the chunk-count bound of draw_len: the chunk size may have shrunk
+                        // since (a 16 MiB message at chunk size 1 costs the harness gigabytes)
+                        len = pl.min((self.chunk.max(1) as usize).saturating_mul(70_000));
                     }
                 }
                 let over = mode == AMode::C19 && ctx.ch.chance("op.arg.over", 1, 60);
@@ -857,10 +859,17 @@ fn run_drops(ctx: &mut Ctx, script: &Script, seg_mode: SegMode) -> RunResult {
         ctx.nontrivial = false;
     }
     let enum_limit = if ctx.tier_thorough { 8 } else { 6 };
+    // work bound per run: every subset decodes the surviving wire twice; a script with megabytes
+    // on the wire is sampled instead of enumerated (a budget, not an oracle)
+    let wire_bytes: u64 = script.packets.iter().map(|p| p.bytes.len() as u64).sum();
+    let affordable = kdrop <= 20 && wire_bytes.saturating_mul(1u64 << kdrop.min(20)) <= 256 * 1024 * 1024;
+    if kdrop >= 1 && kdrop <= enum_limit && !affordable {
+        ctx.probe("c08.large_script_sampled");
+    }
     let mut subsets: Vec<u64> = Vec::new();
     if kdrop == 0 {
         subsets.push(0);
-    } else if kdrop <= enum_limit {
+    } else if kdrop <= enum_limit && affordable {
         for s in 0..(1u64 << kdrop) {
             subsets.push(s);
         }
